@@ -111,6 +111,56 @@ def jw_job(job):
         return (cid, 'blocks the written journal replays to (%s) differ from what was handed to jw (%s)' % (sorted(got), sorted(expect)))
     return (cid, None)
 
+def tool_op_jobs(T, quick):
+    """(base image or None, label, [argv, ...]) -- one tool operation (or short fixed sequence) per job; shared with C02's tool-written family"""
+    jobs = []
+    U2 = '11111111-2222-3333-4444-555555555555'
+    sc = scratch()
+    payload = os.path.join(sc, 'payload'); open(payload, 'wb').write(bytes((i * 5 + 1) & 0xff for i in range(5000)))
+    def dbg(*cmds):
+        return [T['debugfs'], '-w', '-R', cmds[0], '{img}'] if len(cmds) == 1 else None
+    bases = ['ext4csum', 'inline', 'eainode', 'quota', 'metabg', 'bs4k', 'bigalloc', 'mmp', 'desc128', 'deepext']
+    for name in bases if not quick else ['ext4csum', 'inline', 'metabg', 'bigalloc', 'desc128']:
+        D = lambda c: [T['debugfs'], '-w', '-R', c, '{img}']
+        ops = [('mkdir', [D('mkdir /newdir')]), ('write', [D('write %s /newfile' % payload)]), ('symlink', [D('symlink /sl /one')]), ('long symlink', [D('symlink /sl2 ' + 'y' * 200)]),
+               ('link+unlink', [D('ln /one /one2'), D('unlink /hard')]), ('rm', [D('rm /f12')]), ('rmdir', [D('rmdir /lin')] if False else [D('rm /lin/n00')]), ('mknod', [D('mknod /pipe p')]),
+               ('ea_set', [D('ea_set /frag user.x ' + 'v' * 40)]), ('ea_set big', [D('ea_set /sparse user.y ' + 'w' * 600)]), ('ea_rm', [D('ea_rm /bs user.big')]),
+               ('punch', [D('punch /f12 2 5')]), ('fallocate', [D('fallocate /empty 0 20')]), ('truncate via sif', [D('sif /bs size 10')]), ('kill_file', [D('kill_file /one')]),
+               ('htree insert', [D('write %s /hx/%s' % (payload, 'k' * 36 + '_new'))]), ('expand dir', [D('expand_dir /d1')]),
+               ('set_inode_field', [D('sif /d1 mode 040700')]), ('ssv', [D('ssv mnt_count 3')]), ('set_bg', [D('set_bg 1 itable_unused 3')] + [[T['debugfs'], '-w', '-R', 'set_bg 1 checksum calc', '{img}']]),
+               ('freeb+setb', [D('freeb 40'), D('setb 40')]),
+               ('tune2fs -U', [[T['e2fsck'], '-fy', '{img}'], [T['tune2fs'], '-U', U2, '{img}']]), ('tune2fs -L', [[T['tune2fs'], '-L', 'lbl', '{img}']]),
+               ('tune2fs csum_seed', [[T['tune2fs'], '-O', 'metadata_csum_seed', '{img}'], [T['tune2fs'], '-U', U2, '{img}']]),
+               ('tune2fs csum off/on', [[T['e2fsck'], '-fy', '{img}'], [T['tune2fs'], '-O', '^metadata_csum', '{img}'], [T['e2fsck'], '-fy', '{img}'], [T['tune2fs'], '-O', 'metadata_csum', '{img}']]),
+               ('tune2fs -r -m', [[T['tune2fs'], '-r', '10', '-e', 'remount-ro', '{img}']]),
+               ('e2fsck -fyD', [[T['e2fsck'], '-fyD', '{img}']]), ('e2fsck bmap2extent', [[T['e2fsck'], '-fy', '-E', 'bmap2extent', '{img}']]),
+               ('resize grow', [[T['resize2fs'], '-f', '{img}', '5000']]), ('resize shrink', [[T['resize2fs'], '-f', '-M', '{img}']]),
+               ('journal add', [[T['tune2fs'], '-O', 'has_journal', '-J', 'size=1', '{img}']])]
+        # inode layout sweep: every legal i_extra_isize (the checksum's upper half exists from 4 on; the in-inode attribute area starts right behind it)
+        isz = Image(fsweep.base_data(name)).inode_size
+        for x in range(4, isz - 128 + 1, 4) if isz > 128 else ():
+            ops.append(('inode layout extra_isize=%d' % x, [D('sif /f12 extra_isize %d' % x), D('sif /d1 extra_isize %d' % x), D('sif /lnk_long extra_isize %d' % x)]))
+        for label, cmds in ops:
+            jobs.append((name, label, cmds))
+    # a runtime base whose directories (with an empty block, an indexed one, one holding only hard links) have their inodes in the last groups: a shrink renumbers
+    # the directories, and every directory block -- used or not -- carries the inode number in its checksum
+    from checks import c08
+    c08.E2FSCK = T['e2fsck']
+    if c08.build_hiino('hiino_csum', 'metadata_csum,64bit') is not None:
+        for tgt in (['1793'], ['1281'], ['1025'], ['769'], ['-M']):
+            jobs.append(('hiino_csum', 'resize2fs shrink %s (directory inodes renumbered)' % tgt[0], [[T['resize2fs'], '-f', '{img}'] + tgt if tgt[0] != '-M' else [T['resize2fs'], '-f', '-M', '{img}']]))
+    for i, opts in enumerate((['-t', 'ext4', '-O', 'metadata_csum,64bit'], ['-t', 'ext4', '-O', 'metadata_csum,^64bit', '-g', '256'], ['-t', 'ext4', '-O', 'metadata_csum,meta_bg,^resize_inode', '-b', '2048'],
+                              ['-t', 'ext4', '-O', 'metadata_csum,bigalloc', '-C', '4096'], ['-t', 'ext4', '-O', 'metadata_csum,inline_data,quota,project', '-I', '512'],
+                              ['-t', 'ext4', '-O', 'metadata_csum,mmp,metadata_csum_seed,orphan_file'], ['-t', 'ext4', '-O', '^metadata_csum,uninit_bg', '-g', '256'],
+                              ['-t', 'ext4', '-O', 'metadata_csum,64bit', '-E', 'desc_size=128', '-g', '256'], ['-t', 'ext4', '-O', '^metadata_csum,uninit_bg,64bit', '-E', 'desc_size=128', '-g', '256'],
+                              ['-t', 'ext4', '-O', 'metadata_csum,64bit', '-E', 'desc_size=256', '-g', '256'], ['-t', 'ext4', '-O', 'metadata_csum,^64bit', '-I', '128', '-g', '256'],
+                              ['-t', 'ext4', '-O', 'metadata_csum,64bit', '-I', '1024', '-b', '4096'])):
+        jobs.append((None, 'mke2fs ' + ' '.join(opts), [[T['mke2fs'], '-q', '-F'] + opts + ['{img}', '4096']]))
+    for x in range(4, 512 - 128 + 1, 4 if not quick else 28):
+        jobs.append((None, 'inode layout I=512 extra_isize=%d' % x, [[T['mke2fs'], '-q', '-F', '-t', 'ext4', '-O', 'metadata_csum', '-I', '512', '{img}', '4096'],
+                                                                 [T['debugfs'], '-w', '-R', 'mkdir /d', '{img}'], [T['debugfs'], '-w', '-R', 'sif /d extra_isize %d' % x, '{img}'], [T['debugfs'], '-w', '-R', 'sif <2> extra_isize %d' % x, '{img}']]))
+    return jobs
+
 def main(tier, only=None):
     global E2FSCK, PROBE, DEBUGFS
     ck = Check('C14', tier, 'model_checking')
@@ -135,52 +185,7 @@ def main(tier, only=None):
             ck.part('c_crc_primitives', evaluations=summ['evaluations'], rule='every length 0..%d x alignment 0..7 x 3 seeds x {zeros, ramp, ones, mix, every single-bit buffer for len<=72 and every 37th length}, all 65536 two-byte buffers; reference = bit-at-a-time polynomial division' % summ['maxlen'])
     # ------------------------------------------------------------------ (a)
     if 'a' in parts:
-        jobs = []
-        U2 = '11111111-2222-3333-4444-555555555555'
-        sc = scratch()
-        payload = os.path.join(sc, 'payload'); open(payload, 'wb').write(bytes((i * 5 + 1) & 0xff for i in range(5000)))
-        def dbg(*cmds):
-            return [T['debugfs'], '-w', '-R', cmds[0], '{img}'] if len(cmds) == 1 else None
-        bases = ['ext4csum', 'inline', 'eainode', 'quota', 'metabg', 'bs4k', 'bigalloc', 'mmp', 'desc128', 'deepext']
-        for name in bases if not quick else ['ext4csum', 'inline', 'metabg', 'bigalloc', 'desc128']:
-            D = lambda c: [T['debugfs'], '-w', '-R', c, '{img}']
-            ops = [('mkdir', [D('mkdir /newdir')]), ('write', [D('write %s /newfile' % payload)]), ('symlink', [D('symlink /sl /one')]), ('long symlink', [D('symlink /sl2 ' + 'y' * 200)]),
-                   ('link+unlink', [D('ln /one /one2'), D('unlink /hard')]), ('rm', [D('rm /f12')]), ('rmdir', [D('rmdir /lin')] if False else [D('rm /lin/n00')]), ('mknod', [D('mknod /pipe p')]),
-                   ('ea_set', [D('ea_set /frag user.x ' + 'v' * 40)]), ('ea_set big', [D('ea_set /sparse user.y ' + 'w' * 600)]), ('ea_rm', [D('ea_rm /bs user.big')]),
-                   ('punch', [D('punch /f12 2 5')]), ('fallocate', [D('fallocate /empty 0 20')]), ('truncate via sif', [D('sif /bs size 10')]), ('kill_file', [D('kill_file /one')]),
-                   ('htree insert', [D('write %s /hx/%s' % (payload, 'k' * 36 + '_new'))]), ('expand dir', [D('expand_dir /d1')]),
-                   ('set_inode_field', [D('sif /d1 mode 040700')]), ('ssv', [D('ssv mnt_count 3')]), ('set_bg', [D('set_bg 1 itable_unused 3')] + [[T['debugfs'], '-w', '-R', 'set_bg 1 checksum calc', '{img}']]),
-                   ('freeb+setb', [D('freeb 40'), D('setb 40')]),
-                   ('tune2fs -U', [[T['e2fsck'], '-fy', '{img}'], [T['tune2fs'], '-U', U2, '{img}']]), ('tune2fs -L', [[T['tune2fs'], '-L', 'lbl', '{img}']]),
-                   ('tune2fs csum_seed', [[T['tune2fs'], '-O', 'metadata_csum_seed', '{img}'], [T['tune2fs'], '-U', U2, '{img}']]),
-                   ('tune2fs csum off/on', [[T['e2fsck'], '-fy', '{img}'], [T['tune2fs'], '-O', '^metadata_csum', '{img}'], [T['e2fsck'], '-fy', '{img}'], [T['tune2fs'], '-O', 'metadata_csum', '{img}']]),
-                   ('tune2fs -r -m', [[T['tune2fs'], '-r', '10', '-e', 'remount-ro', '{img}']]),
-                   ('e2fsck -fyD', [[T['e2fsck'], '-fyD', '{img}']]), ('e2fsck bmap2extent', [[T['e2fsck'], '-fy', '-E', 'bmap2extent', '{img}']]),
-                   ('resize grow', [[T['resize2fs'], '-f', '{img}', '5000']]), ('resize shrink', [[T['resize2fs'], '-f', '-M', '{img}']]),
-                   ('journal add', [[T['tune2fs'], '-O', 'has_journal', '-J', 'size=1', '{img}']])]
-            # inode layout sweep: every legal i_extra_isize (the checksum's upper half exists from 4 on; the in-inode attribute area starts right behind it)
-            isz = Image(fsweep.base_data(name)).inode_size
-            for x in range(4, isz - 128 + 1, 4) if isz > 128 else ():
-                ops.append(('inode layout extra_isize=%d' % x, [D('sif /f12 extra_isize %d' % x), D('sif /d1 extra_isize %d' % x), D('sif /lnk_long extra_isize %d' % x)]))
-            for label, cmds in ops:
-                jobs.append((name, label, cmds))
-        # a runtime base whose directories (with an empty block, an indexed one, one holding only hard links) have their inodes in the last groups: a shrink renumbers
-        # the directories, and every directory block -- used or not -- carries the inode number in its checksum
-        from checks import c08
-        c08.E2FSCK = T['e2fsck']
-        if c08.build_hiino('hiino_csum', 'metadata_csum,64bit') is not None:
-            for tgt in (['1793'], ['1281'], ['1025'], ['769'], ['-M']):
-                jobs.append(('hiino_csum', 'resize2fs shrink %s (directory inodes renumbered)' % tgt[0], [[T['resize2fs'], '-f', '{img}'] + tgt if tgt[0] != '-M' else [T['resize2fs'], '-f', '-M', '{img}']]))
-        for i, opts in enumerate((['-t', 'ext4', '-O', 'metadata_csum,64bit'], ['-t', 'ext4', '-O', 'metadata_csum,^64bit', '-g', '256'], ['-t', 'ext4', '-O', 'metadata_csum,meta_bg,^resize_inode', '-b', '2048'],
-                                  ['-t', 'ext4', '-O', 'metadata_csum,bigalloc', '-C', '4096'], ['-t', 'ext4', '-O', 'metadata_csum,inline_data,quota,project', '-I', '512'],
-                                  ['-t', 'ext4', '-O', 'metadata_csum,mmp,metadata_csum_seed,orphan_file'], ['-t', 'ext4', '-O', '^metadata_csum,uninit_bg', '-g', '256'],
-                                  ['-t', 'ext4', '-O', 'metadata_csum,64bit', '-E', 'desc_size=128', '-g', '256'], ['-t', 'ext4', '-O', '^metadata_csum,uninit_bg,64bit', '-E', 'desc_size=128', '-g', '256'],
-                                  ['-t', 'ext4', '-O', 'metadata_csum,64bit', '-E', 'desc_size=256', '-g', '256'], ['-t', 'ext4', '-O', 'metadata_csum,^64bit', '-I', '128', '-g', '256'],
-                                  ['-t', 'ext4', '-O', 'metadata_csum,64bit', '-I', '1024', '-b', '4096'])):
-            jobs.append((None, 'mke2fs ' + ' '.join(opts), [[T['mke2fs'], '-q', '-F'] + opts + ['{img}', '4096']]))
-        for x in range(4, 512 - 128 + 1, 4 if not quick else 28):
-            jobs.append((None, 'inode layout I=512 extra_isize=%d' % x, [[T['mke2fs'], '-q', '-F', '-t', 'ext4', '-O', 'metadata_csum', '-I', '512', '{img}', '4096'],
-                                                                     [T['debugfs'], '-w', '-R', 'mkdir /d', '{img}'], [T['debugfs'], '-w', '-R', 'sif /d extra_isize %d' % x, '{img}'], [T['debugfs'], '-w', '-R', 'sif <2> extra_isize %d' % x, '{img}']]))
+        jobs = tool_op_jobs(T, quick)
         res = pmap(op_job, jobs, chunksize=1)
         n = 0
         for name, label, lg, v, vall in res:
